@@ -546,8 +546,91 @@ def check_pass(prog: Program, res: Result) -> None:
     res.floor(R, 4)
 
 
+def check_features_aligned(prog: Program, res: Result) -> None:
+    """Tracker.get_features hands the candidate store two PARALLEL lists - features and the detections they were computed
+    from; the stores zip them / index them by the same position.  The feature list has exactly one entry per detection,
+    in order (a filtered list pairs features with the wrong detections and drops the last ones)."""
+    R = "C09-align"
+    fi = prog.cls(TRK).methods.get("get_features")
+    if fi is None:
+        raise AnalysisError("Tracker.get_features vanished")
+    res.touch(fi)
+    calls = [c for c in walk_function(fi.node) if isinstance(c, ast.Call) and norm(c.func) == "self.candidate.get_track_instances"]
+    res.ob(R, len(calls) == 1, fi.qualname, "one hand-over to get_track_instances", f"{len(calls)} get_track_instances calls", fi.where)
+    for c in calls:
+        gt = prog.cls(FW).methods["get_track_instances"]
+        b = astq.bind_args(gt, c, skip_self=True)
+        feats, insts = b.get("feature_list"), b.get("untracked_instances")
+        prm = norm(insts) if insts is not None else None
+        ok_i = isinstance(insts, ast.Name) and prm in fi.params and not astq.assignments_to(fi.node, prm)
+        res.ob(R, ok_i, fi.qualname, "the detections are handed over as received", f"get_track_instances receives `{short(insts, 40) if insts is not None else '?'}` as the detection list", f"{fi.module.relpath}:{c.lineno}")
+        builds = astq.list_builds(fi.node, feats.id) if isinstance(feats, ast.Name) else []
+        binds = [s_ for s_ in astq.assignments_to(fi.node, feats.id)] if isinstance(feats, ast.Name) else []
+        ok_f = len(builds) == 1 and not builds[0].conds and len(builds[0].gens) == 1 and len(binds) == 1
+        if ok_f:
+            le = astq.loop_elems(builds[0].gens[0], fi.node)
+            ok_f = le is not None and norm(le.seq) == prm and isinstance(builds[0].elt, ast.Call) and len(builds[0].elt.args) == 1 and le.is_elem(builds[0].elt.args[0])
+        res.ob(R, ok_f, fi.qualname, "one feature per detection, in order",
+               f"the feature list `{short(feats, 30) if feats is not None else '?'}` is not built as exactly one feature per element of `{prm}` "
+               f"({len(builds)} builds, {len(binds)} bindings{', filtered' if builds and builds[0].conds else ''}): features and detections go out of step", f"{fi.module.relpath}:{c.lineno}")
+    res.floor(R, 3)
+
+
+def check_total_candidates(prog: Program, res: Result) -> None:
+    """Tracker.get_scores reads candidates_feature_dict[track_id] for EVERY id in current_tracks - also for a track whose
+    instances have all left the window (it must score NaN, not raise).  Every update_candidates implementation therefore
+    returns a mapping that is total over track ids: a defaultdict(list) (possibly made by a helper), unless get_scores
+    itself reads with .get(id, [])."""
+    R = "C09-total"
+    gs = prog.cls(TRK).methods.get("get_scores")
+    if gs is None:
+        raise AnalysisError("Tracker.get_scores vanished")
+    res.touch(gs)
+    prm = [p for p in gs.pos_params if "candidate" in p and "dict" in p]
+    if not prm:
+        raise AnalysisError("Tracker.get_scores: candidates dictionary parameter not found")
+    d = prm[0]
+    plain = [n for n in walk_function(gs.node) if isinstance(n, ast.Subscript) and norm(n.value) == d and isinstance(n.ctx, ast.Load)]
+    res.count(R, 1)
+    if not plain:
+        return  # reads go through .get(...) / membership tests: nothing to require of the producers
+
+    def total(fi, depth=0) -> bool:
+        rets = [n for n in walk_function(fi.node) if isinstance(n, ast.Return) and n.value is not None]
+        if not rets:
+            return False
+        for r in rets:
+            v = r.value
+            if isinstance(v, ast.Name):
+                binds = astq.assignments_to(fi.node, v.id)
+                v = binds[0].value if len(binds) == 1 and isinstance(binds[0], ast.Assign) else None
+            if isinstance(v, ast.Call) and norm(v.func).split(".")[-1] == "defaultdict" and v.args and norm(v.args[0]) == "list":
+                continue
+            if isinstance(v, ast.Call) and depth < 3:
+                q = prog.resolve_call(fi, v)
+                callee = prog.functions.get(q) if q else None
+                if callee is not None and total(callee, depth + 1):
+                    continue
+            return False
+        return True
+
+    impls = [c.methods["update_candidates"] for c in [prog.cls(TRK)] + prog.subclasses(prog.cls(TRK)) if "update_candidates" in c.methods]
+    for fi in impls:
+        res.touch(fi)
+        res.ob(R, total(fi), fi.qualname, "returns a defaultdict(list): total over track ids",
+               f"{fi.qualname.split(':')[1]} does not return a defaultdict(list) while get_scores indexes `{d}[track_id]` for every current track: a track with no instance "
+               "left in the window raises KeyError in track() instead of scoring NaN", fi.where)
+    res.floor(R, 3)
+
+
 def check(prog: Program, res: Result) -> None:
+    from . import _parallel
+    _parallel.check_parallel_index(prog, res, "C09-index")
+    from . import _iou
+    _iou.check_iou(prog, res, "C09-iou")
     check_alloc(prog, res)
+    check_features_aligned(prog, res)
+    check_total_candidates(prog, res)
     check_truth(prog, res)
     check_arity(prog, res)
     check_once(prog, res)
